@@ -50,11 +50,25 @@ pub fn start_generator(zp: u64) -> Generator {
     }
 }
 
+/// A *reused* generator: it first digested an input that populated every one
+/// of the 31 block hash contexts with 64 pieces (and activated the last-piece
+/// hash), was then `reset()`, and is brought to the zero prefix in place.
+pub fn start_generator_dirty(zp: u64) -> Generator {
+    let mut g = Generator::new();
+    g.update(&corpus::repeat(&corpus::W[30], 70));
+    g.update(&[1, 2, 3]);
+    g.reset();
+    if zp != 0 {
+        g.verif_feed_zero_bytes(zp);
+    }
+    g
+}
+
 /// From-scratch execution of one case with a plain loop (used by replay).
 pub fn run_case(c: &Value) -> Result<(), String> {
     let zp = c["zero_prefix"].as_u64().ok_or("zero_prefix")?;
     let hint = c["hint"].as_u64();
-    let mut g = start_generator(zp);
+    let mut g = if c["dirty_start"].as_bool() == Some(true) { start_generator_dirty(zp) } else { start_generator(zp) };
     let mut r = Ctph::new(zp);
     let mut hint = hint;
     if let Some(h) = hint {
